@@ -62,7 +62,25 @@ impl ToTokens for FromMetaImpl<'_> {
                 let with_callable = &field.with_callable;
                 let field_post_transform = field.post_transform.as_ref();
                 let post_transform = base.post_transform_call();
+                // `#[darling(flatten)]` hands its items to `from_list` directly, so a wrapper has
+                // to forward that method too (as `Box<T>` and friends do). A custom `with`
+                // function only knows how to read a whole meta item, so there is nothing to
+                // forward to in that case.
+                let from_list = if let Cow::Owned(_) = field.with_callable {
+                    Some(quote!(
+                        fn from_list(__items: &[::darling::export::NestedMeta]) -> ::darling::Result<Self> {
+                            ::darling::FromMeta::from_list(__items)
+                                #field_post_transform
+                                .map(#ty_ident)
+                                #post_transform
+                        }
+                    ))
+                } else {
+                    None
+                };
                 quote!(
+                    #from_list
+
                     fn from_meta(__item: &::darling::export::syn::Meta) -> ::darling::Result<Self> {
                         ::darling::export::identity::<fn(&::darling::export::syn::Meta) -> ::darling::Result<_>>(#with_callable)(__item)
                             #field_post_transform
